@@ -157,7 +157,7 @@ class BaseOracle:
         self.seen = set()
 
     def hooks(self):
-        return {"in_callback": self.in_callback, "after_update": self.after_update}
+        return {"in_callback": self.in_callback, "after_update": self.after_update, "on_action": self.on_action}
 
     def add(self, sig, what):
         if sig not in self.seen:
@@ -165,6 +165,9 @@ class BaseOracle:
             self.v.append((sig, what))
 
     def in_callback(self, run, strategy, market, market_book):
+        pass
+
+    def on_action(self, run, sidx, market, action, result, order):
         pass
 
     def after_update(self, run, market_book):
